@@ -93,6 +93,8 @@ class RefSyntaxTextOp(Op):
         cases = []
         for _ in range(n):
             v = "".join(rng.choice(atoms) for _ in range(rng.randint(0, 6)))
+            if len(cases) < 6:
+                v = ["${", "$", "{", "${}", "$ {", ""][len(cases)]      # the shortest cells, the bare opening of a reference among them
             try:
                 validate_pyxform_reference_syntax(v, "survey", 2, "label")
                 exp = "O"
@@ -388,7 +390,22 @@ def M_geopoint_trigger_not_a_question(rng, form):
     return {"kind": r"For 'background-geopoint' questions, the 'trigger' column must be a reference to another question that exists", "row": row}
 
 
-MUTATIONS = [M_geopoint_trigger_not_a_question, M_file_instance_clash, M_ambiguous_reference, M_or_other_without_choices, M_unmatched_end, M_mismatched_end, M_unclosed_begin, M_duplicate_sibling, M_invalid_name, M_unknown_reference, M_malformed_reference,
+def M_saveto_in_repeat(rng, form):
+    """a save_to cell on a question inside a repeat, directly or with one or two groups in between: entities cannot be created from repeats"""
+    if form.get("entities"):
+        return None
+    depth = rng.choice([0, 1, 1, 2])
+    rows = [{"type": "begin repeat", "name": "ent_rep", "label": "R"}]
+    rows += [{"type": "begin group", "name": f"ent_g{k}", "label": "G"} for k in range(depth)]
+    rows.append({"type": "text", "name": "ent_q", "label": "Q", "save_to": "prop_a"})
+    rows += [{"type": "end group"} for _ in range(depth)]
+    rows.append({"type": "end repeat"})
+    rows_of(form).extend(rows)
+    form["entities"] = [{"dataset": "things", "label": "concat('a', 'b')"}]
+    return {"kind": r"Currently, you can't create entities from repeats", "row": len(rows_of(form)) + 2 - 1 - depth - 1}
+
+
+MUTATIONS = [M_saveto_in_repeat, M_geopoint_trigger_not_a_question, M_file_instance_clash, M_ambiguous_reference, M_or_other_without_choices, M_unmatched_end, M_mismatched_end, M_unclosed_begin, M_duplicate_sibling, M_invalid_name, M_unknown_reference, M_malformed_reference,
              M_unknown_type, M_missing_list, M_calculate_without_calculation, M_bad_parameters, M_unknown_parameter, M_instance_clash,
              M_duplicate_choice, M_missing_name, M_missing_label, M_duplicate_header, M_spaces_in_multi_choice]
 
